@@ -56,7 +56,8 @@ def subchains(name: str, max_distance: int = 9) -> List[List[str]]:
 
 
 def gen_repcode_input(rng: random.Random, max_distance: int = 4, max_cycles: int = 8, constructors=("full", "full", "simplified"),
-                      ancilla_states: bool = True, connectivity: bool = True, min_distance: int = 2) -> Dict[str, Any]:
+                      ancilla_states: bool = True, connectivity: bool = True, min_distance: int = 2,
+                      simplified_zero_cycles: bool = False, composite_p: float = 0.0) -> Dict[str, Any]:
     constructor = rng.choice(constructors)
     mode = rng.choice(["initial_state", "chain", "connectivity"] if connectivity else ["initial_state", "chain"])
     inp: Dict[str, Any] = {"constructor": constructor, "description": mode, "refocus": rng.random() < 0.7}
@@ -77,10 +78,13 @@ def gen_repcode_input(rng: random.Random, max_distance: int = 4, max_cycles: int
         inp["ancilla_state"] = [rng.randint(0, 1) for _ in range(d - 1)]
     else:
         inp["ancilla_state"] = None
-    lo = 1 if constructor == "simplified" else 0
+    # 0 cycles of the simplified constructor is a sub-circuit with repetition count 0 (outside "counts >= 1" of C06 / C08 / C15)
+    lo = 1 if constructor == "simplified" and not simplified_zero_cycles else 0
     inp["cycles"] = rng.randint(lo, max_cycles)
     if rng.random() < 0.15:
         inp["reuse_description"] = True
+    if composite_p and mode == "connectivity" and rng.random() < composite_p:
+        inp["composite"] = gen_composite(rng, inp)
     return inp
 
 
@@ -101,12 +105,57 @@ def description_of(inp: Dict[str, Any]):
     if mode == "chain":
         return RepetitionCodeDescription.from_chain(length=2 * inp["distance"] - 1, qubit_refocusing=inp.get("refocus", True))
     if mode == "connectivity":
-        return RepetitionCodeDescription.from_connectivity(
+        base = RepetitionCodeDescription.from_connectivity(
             involved_qubit_ids=[QubitIDObj(q) for q in inp["involved"]],
             connectivity=layout(inp["layout"]),
             qubit_refocusing=inp.get("refocus", True),
         )
+        comp = inp.get("composite")
+        if not comp:
+            return base
+        # the same chain described by a composite description with exclusions (a description the constructors accept as well)
+        from qce_circuit.library.repetition_code.circuit_components import CompositeRepetitionCodeDescription
+        from qce_circuit.connectivity.intrf_channel_identifier import EdgeIDObj
+        return CompositeRepetitionCodeDescription(
+            _base_description=base,
+            _qubit_index_map={QubitIDObj(q): i for i, q in enumerate(inp["involved"])},
+            _connectivity=layout(inp["layout"]),
+            _exclude_gate_qubit_ids=[QubitIDObj(q) for q in comp.get("exclude_gate_qubits", [])],
+            _exclude_gate_edge_ids=[EdgeIDObj(QubitIDObj(a), QubitIDObj(b)) for a, b in comp.get("exclude_gate_edges", [])],
+            _exclude_rotation_qubit_ids=[QubitIDObj(q) for q in comp.get("exclude_rotation_qubits", [])],
+            _only_required_parking_operations=bool(comp.get("only_required_parking", False)),
+        )
     raise ValueError(mode)
+
+
+def gen_composite(rng: random.Random, inp: Dict[str, Any]) -> Dict[str, Any]:
+    """Exclusions for a composite description over the chain of a 'connectivity' input (readout exclusions are left out: the
+    full constructor needs every measurement for its detectors)."""
+    seg = inp["involved"]
+    lay = layout(inp["layout"])
+    inv = set(seg)
+    edges = []
+    for i in range(lay.gate_sequence_count):
+        for op in lay.get_gate_sequence_at_index(i).gate_operations:
+            a, b = [q.id for q in op.identifier.qubit_ids]
+            if a in inv and b in inv:
+                edges.append([a, b] if rng.random() < 0.5 else [b, a])
+    comp: Dict[str, Any] = {}
+    kind = rng.choice(["gate_qubit", "gate_edge", "rotation", "only_required", "mixed", "none"])
+    if kind in ("gate_qubit", "mixed"):
+        comp["exclude_gate_qubits"] = [rng.choice(seg)]
+    if kind in ("gate_edge", "mixed") and edges:
+        comp["exclude_gate_edges"] = rng.sample(edges, min(len(edges), rng.randint(1, 2)))
+    if kind in ("rotation", "mixed"):
+        comp["exclude_rotation_qubits"] = rng.sample(seg, min(len(seg), rng.randint(1, 2)))
+    if kind in ("only_required", "mixed") and rng.random() < 0.7:
+        comp["only_required_parking"] = True
+    comp["kind"] = kind
+    return comp
+
+
+class CompositeNotConstructible(Exception):
+    """The constructor rejects a composite description (e.g. every operation of a round excluded): no circuit, no verdict."""
 
 
 def construct(inp: Dict[str, Any]):
@@ -126,7 +175,12 @@ def construct(inp: Dict[str, Any]):
             # effect on the description matters
             pass
         description.gate_sequences
-    return fn(qec_cycles=inp["cycles"], description=description, initial_state=initial_state_of(inp))
+    if not inp.get("composite"):
+        return fn(qec_cycles=inp["cycles"], description=description, initial_state=initial_state_of(inp))
+    try:
+        return fn(qec_cycles=inp["cycles"], description=description, initial_state=initial_state_of(inp))
+    except Exception as exc:
+        raise CompositeNotConstructible(f"{type(exc).__name__}: {exc}") from exc
 
 
 def gen_global_settings(rng: random.Random, default: bool = False) -> Dict[str, float]:
